@@ -178,7 +178,7 @@ func drawInstant(t *rapid.T) Instant {
 var specInstants = pbt.Register(pbt.Spec[Instant]{
 	Prop: "C19", Name: "calendar-random-instants",
 	Rule: "rapid-drawn instants of the century, drawn field by field (year, month, day, hour, minute, second, millisecond; each either over its whole range or from its edge values: first/last day of a month, 59 -> 00 roll-overs, five-minute borders, one-/two-/three-digit milliseconds); same comparison as the day sweep, which includes the unit functions one millisecond before and at the surrounding step borders; non-trivial = offset not in the fixed list of the sweep; distinct by instant",
-	Quick: 600000, Thorough: 7305000,
+	Quick: 1500000, Thorough: 7305000,
 	Draw: drawInstant,
 	Run: func(c Instant) *pbt.Result {
 		t := baseMs + int64(c.Day)*msDay + c.Off
@@ -326,7 +326,7 @@ func runFmt(c FmtCase) *pbt.Result {
 var specFmt = pbt.Register(pbt.Spec[FmtCase]{
 	Prop: "C19", Name: "dateformat-roundtrip",
 	Rule: "patterns over the field letters y m d H M S s (date letters all present or all absent, any subset/order of the time letters, occasionally a repeated letter) with optional literal separators (ASCII punctuation, T, Z, multi-byte runes) and an instant of the century drawn field by field with edge values; Parse(Format(t)) must agree with t on every field present (and equal t when all seven are present), with a fresh and with a re-used DateFormat; non-trivial = >= 3 fields; distinct by (pattern, instant)",
-	Quick: 100000, Thorough: 1000000,
+	Quick: 300000, Thorough: 1500000,
 	Draw: func(t *rapid.T) FmtCase {
 		c := FmtCase{Pattern: drawPattern(t)}
 		in := drawInstant(t)
